@@ -16,7 +16,7 @@ LEVEL_TEXT = ('Static decision of the structural necessary conditions of the con
               'both InsertDataItem implementations on a symbolic heap and their agreement; covering lookup predicate; '
               'append-once/count; iterator protocol; queue wiring (key/item order, max end, key = current '
               'characteristic; the wrapper drops an entry only against the queue\'s current lowest priority); lazy '
-              'invalidation loop; refill completeness; maxlen propagation.')
+              'invalidation loop; refill completeness and refill-before-pop of an empty queue; forwarding of Clear / IsEmpty; maxlen propagation.')
 EXPLANATION = ('Path summaries (accessors and queue wrappers inlined, loops unrolled <= 2) of every public container '
                'operation are compared with the expected heap shape, guard literals and call arguments. The '
                'ordering and eviction behaviour of depq.DEPQ itself is the trusted base.')
